@@ -382,3 +382,82 @@ Proof.
   pose proof (machine_spec cx Hfmok hot (fu_build fu) (fu_closure fu) m start Hpt Hstart Hm) as HM.
   apply (np_machine_to_table v cx m HV eq_refl eq_refl HM hoa Hpa).
 Qed.
+
+(* ---------- C04: a table is produced exactly when no two items conflict ---------- *)
+
+Definition nf {A} (r : res A) : Prop := forall site, r <> OutOfFuel site.
+
+Lemma nf_bind {A B} (r : res A) (k : A -> res B) : nf r -> (forall a, nf (k a)) -> nf (bind r k).
+Proof. intros Hr Hk. destruct r; cbn; [apply Hk|discriminate 1|discriminate 1|]. intros s. exfalso. apply (Hr site). reflexivity. Qed.
+
+Lemma nf_unwrap {A} site (o : option A) : nf (unwrap site o).
+Proof. destruct o; discriminate 1. Qed.
+
+Lemma nf_set_action m f b s q it a : nf (set_action m f b s q it a).
+Proof. unfold set_action. destruct (act_get _ _ _) as [[ei ea]|]; [destruct (action_eqb ea a)|]; discriminate 1. Qed.
+
+Lemma nf_add_item_action m f rules b s it : nf (add_item_action m f rules b s it).
+Proof.
+  unfold add_item_action. destruct (it_rule it) as [r|].
+  - apply nf_bind; [apply nf_unwrap|]. intros ru. destruct (Nat.eqb _ _); [apply nf_set_action|].
+    apply nf_bind; [apply nf_unwrap|]. intros [u|n]; [|discriminate 1]. apply nf_bind; [apply nf_unwrap|intros; apply nf_set_action].
+  - destruct (Nat.eqb _ _); [discriminate 1|apply nf_set_action].
+Qed.
+
+Lemma nf_add_state_actions m f rules s items : forall b, nf (add_state_actions m f rules b s items).
+Proof. induction items as [|it items IH]; intros b; cbn [add_state_actions]; [discriminate 1|]. apply nf_bind; [apply nf_add_item_action|apply IH]. Qed.
+
+Lemma nf_add_actions m f rules sts : forall b, nf (add_actions m f rules b sts).
+Proof. induction sts as [|[i st] sts IH]; intros b; cbn [add_actions]; [discriminate 1|]. apply nf_bind; [apply nf_add_state_actions|apply IH]. Qed.
+
+Lemma nf_add_gotos ts : forall b, nf (add_gotos b ts).
+Proof.
+  induction ts as [|t ts IH]; intros b; cbn [add_gotos]; [discriminate 1|]. destruct (tr_symbol t); [apply IH|].
+  destruct (got_get _ _ _); [discriminate 1|apply IH].
+Qed.
+
+Lemma nf_table_set_action t s q a : nf (table_set_action t s q a).
+Proof.
+  unfold table_set_action, action_index, state_count. apply nf_bind.
+  - apply nf_bind; [destruct q; [apply nf_unwrap|discriminate 1]|]. intros qi. cbn [bind]. destruct (Nat.leb _ _); discriminate 1.
+  - intros i. destruct (Nat.leb _ _); discriminate 1.
+Qed.
+
+Lemma nf_table_set_goto t s n g : nf (table_set_goto t s n g).
+Proof.
+  unfold table_set_goto, goto_index, state_count. apply nf_bind.
+  - apply nf_bind; [apply nf_unwrap|]. intros ni. cbn [bind]. destruct (Nat.leb _ _); discriminate 1.
+  - intros i. destruct (Nat.leb _ _); discriminate 1.
+Qed.
+
+Lemma nf_fill_actions l : forall t, nf (fill_actions t l).
+Proof. induction l as [|[[s q] [it a]] l IH]; intros t; cbn [fill_actions]; [discriminate 1|]. apply nf_bind; [apply nf_table_set_action|apply IH]. Qed.
+
+Lemma nf_fill_gotos l : forall t, nf (fill_gotos t l).
+Proof. induction l as [|[[s n] g] l IH]; intros t; cbn [fill_gotos]; [discriminate 1|]. apply nf_bind; [apply nf_table_set_goto|apply IH]. Qed.
+
+Lemma nf_machine_to_table ho m f : nf (machine_to_table ho m f).
+Proof.
+  unfold machine_to_table. apply nf_bind; [apply nf_add_actions|]. intros b. apply nf_bind; [apply nf_add_gotos|]. intros b'.
+  apply nf_bind; [apply nf_fill_actions|]. intros t. apply nf_fill_gotos.
+Qed.
+
+(* no two items of a state ask for different actions on the same lookahead *)
+Definition conflict_free (m : machine) (f : vfile) : Prop :=
+  forall s it1 it2 q a1 a2, in_state m s it1 -> in_state m s it2 ->
+                            demands m f s it1 q a1 -> demands m f s it2 q a2 -> a1 = a2.
+
+Theorem table_iff_conflict_free v cx m ho :
+  VWF v -> cx_rules cx = get_rules v -> cx_start cx = vf_start v -> MInv cx m -> perm_ho ho ->
+  ((exists t, machine_to_table ho m v = Ok t) <-> conflict_free m v).
+Proof.
+  intros HV Hr Hs HM Hho. split.
+  - intros (t & Ht). pose proof (machine_to_table_spec m v ho t Hho Ht) as HT.
+    intros s it1 it2 q a1 a2 H1 H2 D1 D2.
+    pose proof (ts_demand m v t HT s it1 q a1 H1 D1) as E1. pose proof (ts_demand m v t HT s it2 q a2 H2 D2) as E2. congruence.
+  - intros Hcf. destruct (machine_to_table ho m v) as [t|e|site|site] eqn:E; [eauto| | |].
+    + exfalso. destruct (conflict_is_genuine m v ho e E) as (c & _ & _ & _ & _ & H1 & H2 & q & a1 & a2 & D1 & D2 & Hne).
+      apply Hne. apply (Hcf _ _ _ _ _ _ H1 H2 D1 D2).
+    + exfalso. apply (np_machine_to_table v cx m HV Hr Hs HM ho Hho site E).
+    + exfalso. apply (nf_machine_to_table ho m v site E).
+Qed.
